@@ -165,7 +165,9 @@ func (f *Frame) execCall(c *ssa.CallCommon, result ssa.Value, pos token.Pos) EV 
 	var args []EV
 	if c.IsInvoke() {
 		recv := f.sval(c.Value)
-		f.safety("nil-call", sx("distinct", sx("i_typ", recv.t), "0"), pos)
+		if !vc.P.isSkip(key) {
+			f.safety("nil-call", sx("distinct", sx("i_typ", recv.t), "0"), pos)
+		}
 		args = append(args, recv)
 	}
 	for _, a := range c.Args {
@@ -612,8 +614,14 @@ func (f *Frame) applyContract(con *Contract, key string, sig *types.Signature, a
 		env2.names["caller"] = f.vals[f.fn.Params[0]]
 	}
 	for _, e := range con.Ensures {
+		// a clause that cannot be evaluated at a call site (it mentions the callee's locals) is simply not assumed
+		var soft []string
+		vc.softErr = &soft
 		t := env2.evalBool(e.E)
-		vc.assume(implies(f.curReach, t))
+		vc.softErr = nil
+		if len(soft) == 0 {
+			vc.assume(implies(f.curReach, t))
+		}
 	}
 	for _, e := range con.Assumes {
 		t := env2.evalBool(e.E)
